@@ -4,9 +4,13 @@ import (
 	"encoding/json"
 	"fmt"
 	"os"
+	"runtime"
 	"strings"
+	"sync"
+	"sync/atomic"
 	"time"
 
+	kv "github.com/XiXi-2024/xixi-kv"
 	"github.com/XiXi-2024/xixi-kv/verifrt/sched"
 	"github.com/XiXi-2024/xixi-kv/verifrt/vtime"
 )
@@ -79,6 +83,26 @@ func callKinds(cs []Call) string {
 		k = append(k, c.K)
 	}
 	return strings.Join(k, "+")
+}
+
+// raceInHarnessOnly: both conflicting accesses of the report were made by harness or shim code (top frame of each
+// access stack in package main or verifrt): the memory is the harness's own, which only the two free-running passes
+// ever touch from two goroutines.
+func raceInHarnessOnly(rep string) bool {
+	lines := strings.Split(rep, "\n")
+	tops := 0
+	for i, l := range lines {
+		t := strings.TrimSpace(l)
+		if (strings.HasPrefix(t, "Read at ") || strings.HasPrefix(t, "Write at ") || strings.HasPrefix(t, "Previous read at ") || strings.HasPrefix(t, "Previous write at ") ||
+			strings.HasPrefix(t, "Atomic read at ") || strings.HasPrefix(t, "Atomic write at ") || strings.HasPrefix(t, "Previous atomic ")) && i+1 < len(lines) {
+			top := strings.TrimSpace(lines[i+1])
+			if !(strings.HasPrefix(top, "main.") || strings.Contains(top, "/verifrt/")) {
+				return false
+			}
+			tops++
+		}
+	}
+	return tops == 2
 }
 
 // raceSig extracts the two top repository frames of a race report (stable across schedules).
@@ -187,6 +211,7 @@ func c09TwoDatabasesTask(cfg Cfg, n int) func(res *TaskResult) {
 		beginExecution()
 		sched.SetMode(sched.ModeOff)
 		defer sched.SetMode(sched.ModeSeq)
+		defer runtime.GOMAXPROCS(runtime.GOMAXPROCS(4)) // the two drivers must really run in parallel
 		res.Execs++
 		res.count("free_running_executions", 1)
 		var keys []string
@@ -219,19 +244,48 @@ func c09TwoDatabasesTask(cfg Cfg, n int) func(res *TaskResult) {
 		script := func(d int) []Op {
 			return []Op{{K: "merge"}, {K: "put", Key: keys[d], VC: "S"}, {K: "del", Key: keys[2+d]},
 				{K: "batch", Sub: []Op{{K: "put", Key: keys[4+d], VC: "S"}, {K: "del", Key: keys[6+d]}}}, {K: "sync"}, {K: "merge"},
-				{K: "restart"}, {K: "put", Key: keys[8+d], VC: "S"}, {K: "merge"}, {K: "restart"}}
+				{K: "restart"}, {K: "put", Key: keys[8+d], VC: "S"}, {K: "merge"}, {K: "restart"},
+				{K: "put", Key: keys[10+d], VC: "S"}, {K: "merge"}, {K: "merge"}, {K: "restart"}}
 		}
 		bad := make([]string, 2)
 		done := make(chan int, 2)
+		// the two goroutines meet before every step, so that step i of both databases (in particular the Merges, the
+		// restarts) really runs at the same time; whoever stops early releases the other
+		steps := len(script(0))
+		gates := make([]chan struct{}, steps)
+		arrived := make([]atomic.Int32, steps)
+		for i := range gates {
+			gates[i] = make(chan struct{})
+		}
+		quit := make(chan struct{})
+		var quitOnce sync.Once
 		for d := range ws {
 			go func(d int) {
-				defer func() { done <- d }()
+				defer func() { quitOnce.Do(func() { close(quit) }); done <- d }()
 				w := ws[d]
 				for i, op := range script(d) {
+					if arrived[i].Add(1) == 2 {
+						close(gates[i])
+					}
+					select {
+					case <-gates[i]:
+					case <-quit:
+					}
 					var ar ApplyResult
-					if op.K == "merge" { // (Apply sets the process-wide scan-order seam: not from two goroutines)
+					switch op.K { // (Apply touches process-wide harness seams - scan order, clock: not from two goroutines)
+					case "merge":
 						ar.Err = w.guard(func() error { return w.DB.Merge() })
-					} else {
+					case "restart":
+						if ar.Err = w.Close(); ar.Err == nil {
+							ar.Err = w.guard(func() error {
+								db, e := kv.Open(w.Cfg.options(w.Dir))
+								if e == nil {
+									w.DB = db
+								}
+								return e
+							})
+						}
+					default:
 						ar = w.Apply(op)
 					}
 					if ar.Err != nil || ar.Clause != "" || w.Dead {
@@ -252,12 +306,17 @@ func c09TwoDatabasesTask(cfg Cfg, n int) func(res *TaskResult) {
 			ws[d].Close()
 		}
 		now := raceCount()
-		if k := now - raceSeen; k > 0 {
-			rep := raceReport(raceSeen)
+		for i := raceSeen; i < now; i++ {
+			rep := raceReport(i)
+			if raceInHarnessOnly(rep) {
+				res.count("harness_only_race_reports_ignored", 1) // both accesses made by the harness / the shims on their own state
+				continue
+			}
 			raceSeen = now
 			fail("data-race", "data-race:two-databases:"+raceSig(rep), "the race detector reported:\n"+truncate(rep, 2500))
 			return
 		}
+		raceSeen = now
 		for d := range bad {
 			if bad[d] != "" {
 				fail("two-databases", "two-databases", bad[d])
@@ -343,7 +402,7 @@ func c09Tasks(tier string) []Task {
 		for _, io := range []byte{0, 1} {
 			c := defaultCfg
 			c.Index, c.IO, c.FileSize = ix, io, 2048
-			tasks = append(tasks, Task{Level: "two-databases-free-running", Name: "two databases " + c.String(), Fn: c09TwoDatabasesTask(c, 120)})
+			tasks = append(tasks, Task{Level: "two-databases-free-running", Name: "two databases " + c.String(), Fn: c09TwoDatabasesTask(c, 400)})
 		}
 	}
 	return tasks
